@@ -141,6 +141,9 @@ theorem ragged_change_iff (a b after : List Nat) :
   · have : a ≠ b := fun h => hl (by rw [h])
     simp [raggedChange, hl, this]
 
+/-- an empty chunk — also strictly inside a contig's run — does not close the pending group (instance of `groups_chunking`) -/
+example : groupsOfChunks [[], [(1, 0)], [], [(1, 1), (2, 2)], [], [(2, 3)], []] = [⟨1, [0, 1]⟩, ⟨2, [2, 3]⟩] := by decide
+
 /-! ### the pull-step machine of `iter_chromosomes` under a pull-all consumer is a walk over the order -/
 
 /-- big-step form of the generator, from the top of the `for name in real_order` loop -/
